@@ -474,9 +474,12 @@ theorem eq_false_when_quantities_differ (c : Cfg) (a x : Opd)
   obtain ⟨e, he⟩ := add_refuses_quantities_now c a x ha hx hne
   simp [eqM, he]
 
-/-- the setting `canonical_units` does not influence any operator -/
-theorem canonical_units_irrelevant (l k : Bool) (a x : Opd) :
-    compatAdd T ⟨l, k, true⟩ a x = compatAdd T ⟨l, k, false⟩ a x := rfl
+/-- the setting `canonical_units`: every read of `state.canonical_units` in lcapy/*.py sits inside a
+    `_pexpr` property (what is PRINTED), none in an operator -- which is why the model above has no
+    branch on `Cfg.canonical` (that the operators behave alike under both settings is checked by the
+    correspondence, which runs them under all 8 settings; the former theorem
+    `canonical_units_irrelevant` was `rfl` on the model and said nothing about the code) -/
+theorem flag_canonical_units_only_printing : tables.flags.canonicalOnlyPrinting = true := by decide
 
 /-- an accepted sum is an object of the class of one of its operands and carries that class's
     default units -/
